@@ -99,6 +99,10 @@ class StatusChain:
                 rep.violation(key, fi.loc(d),
                               f'`{norm(d)[:60]}` short-circuits: once a failure was seen the check of every later graph is skipped, '
                               f'so its errors are neither found nor recorded in its metadata')
+            elif loops and acc is None and isinstance(d, ast.Assign) and isinstance(d.targets[0], (ast.Tuple, ast.List)):
+                # `status, text = helper(...)`: a per-iteration value that is (presumably) accumulated by a following statement
+                later = [x for x in ast.walk(loops[0]) if isinstance(x, ast.AugAssign) and any(isinstance(y, ast.Name) and y.id == var for y in ast.walk(x.value))]
+                rep.add(key, fi.loc(d), 'info' if later else 'undecided', 'per-iteration value unpacked from a helper result')
             elif loops and acc is None:
                 # a plain store inside a loop forgets the status of earlier iterations
                 okc, cv = try_fold(contributed) if contributed is not None else (False, None)
@@ -147,6 +151,10 @@ class StatusChain:
         if isinstance(expr, ast.BinOp) and isinstance(expr.op, ast.BitOr):
             self.check_expr(fi, expr.left, at)
             self.check_expr(fi, expr.right, at)
+            return
+        if isinstance(expr, (ast.Tuple, ast.Subscript, ast.Attribute, ast.Call, ast.Name)):
+            rep.undecided(f'{fi.module.name}:{fi.qualname}: status value {norm(expr)[:60]}', fi.loc(at),
+                          'the status travels inside a tuple / through a construct the status chain does not follow')
             return
         rep.violation(f'{fi.module.name}:{fi.qualname}: status value {norm(expr)[:60]}', fi.loc(at),
                       'the status is not drawn from a fixed set of literals in 0..255 (an unbounded value is reduced '
@@ -1170,7 +1178,34 @@ def r105(ctx: Ctx) -> RuleReport:
     ind = ctx.repo.func(M_, '_indent')
     p = ind.positional[0]
     for n in walk_local(ind.node):
+        is_none_result = isinstance(n, ast.Return) and isinstance(n.value, ast.Constant) and n.value.value is None
         if isinstance(n, ast.Assign) and isinstance(n.targets[0], ast.Name) and isinstance(n.value, ast.Constant) and n.value.value is None:
+            # does this None reach a `return <name>` without passing a call that ends the run?
+            c_ind = CFG(ind.node)
+            exits_ = {nd.id for nd in c_ind.nodes if nd.kind == 'stmt' and nd.ast is not None and any(isinstance(x, ast.Call) and norm(x.func) in ('sys.exit', 'exit', 'parser.error') for x in ast.walk(nd.ast))}
+            exits_ |= {nd.id for nd in c_ind.nodes if nd.kind == 'stmt' and isinstance(nd.ast, ast.Assign) and n.targets[0].id in assigned_names(nd.ast) and nd.ast is not n}
+            rets_ = {nd.id for nd in c_ind.nodes if nd.kind == 'stmt' and isinstance(nd.ast, ast.Return) and nd.ast.value is not None and norm(nd.ast.value) == n.targets[0].id}
+            vn = n.targets[0].id
+            seen_, stack_, is_none_result = set(), [c_ind.node_of(n)], False
+            first_ = True
+            while stack_ and rets_:
+                x_ = stack_.pop()
+                if x_ in seen_ or (x_ in exits_ and not first_):
+                    continue
+                first_ = False
+                seen_.add(x_)
+                if x_ in rets_:
+                    is_none_result = True
+                    break
+                nd_ = c_ind.nodes[x_]
+                for m_, lab_ in c_ind.succ[x_]:
+                    if lab_ == 'exc':
+                        continue
+                    # while the variable still holds None, `v is None` cannot be false and `v is not None` / `v` cannot be true
+                    if nd_.kind == 'cond' and ((norm(nd_.ast) == f'{vn} is None' and lab_ == 'F') or (norm(nd_.ast) in (f'{vn} is not None', vn) and lab_ == 'T')):
+                        continue
+                    stack_.append(m_)
+        if is_none_result:
             fx = fx_of(ind, n)
             words = [(f, pol) for f, pol in fx if '.lower()in(' in f or '.upper()in(' in f or '.casefold()in(' in f]
             key = f'{ind.fq}: the words no / none / false (any case) select "no indentation"'
